@@ -1,5 +1,6 @@
 import CookModel.Basic.Proto
 import CookModel.Side.Aisle
+import CookModel.Side.AisleOrig
 /- Line protocol for the aisle model (C11).
    aisle <text>               → ok {C <name> {I<k> <n1> … <nk>}} | err <kind> … | panic
    aisle_rt <text>            → noparse | rt <written text> same|diff|err
@@ -39,29 +40,43 @@ def wsRanges (p : Char → Bool) : String := Id.run do
     | _, _ => pure ()
   " ".intercalate out.toList
 
-def handleAisle : List String → Option String
-  | ["aisle", t] => do
-    let t ← parseText? t
-    return renderParse (parse t)
-  | ["aisle_rt", t] => do
-    let t ← parseText? t
-    match parse t with
-    | .error _ => return "noparse"
-    | .ok c =>
-      let w := write c
-      let again := match parse w with
-        | .ok c2 => if c2 = c then "same" else "diff"
-        | .error _ => "err"
-      return s!"rt {renderText w} {again}"
-  | ["aisle_lookup", t, n] => do
-    let t ← parseText? t
-    let n ← parseText? n
-    match parse t with
-    | .error _ => return "noparse"
-    | .ok c =>
-      match lookup c n with
-      | none => return "none"
-      | some i => return s!"some {renderText i.name} {renderText i.common} {renderText i.category}"
+def aisleOps (p : List Char → Except Err Conf) (sfx : String) : List String → Option String
+  | [op, t] =>
+    if op == "aisle" ++ sfx then do
+      let t ← parseText? t
+      return renderParse (p t)
+    else if op == "aisle_rt" ++ sfx then do
+      let t ← parseText? t
+      match p t with
+      | .error _ => return "noparse"
+      | .ok c =>
+        let w := write c
+        let again := match p w with
+          | .ok c2 => if c2 = c then "same" else "diff"
+          | .error _ => "err"
+        return s!"rt {renderText w} {again}"
+    else none
+  | [op, t, n] =>
+    if op == "aisle_lookup" ++ sfx then do
+      let t ← parseText? t
+      let n ← parseText? n
+      match p t with
+      | .error _ => return "noparse"
+      | .ok c =>
+        match lookup c n with
+        | none => return "none"
+        | some i => return s!"some {renderText i.name} {renderText i.common} {renderText i.category}"
+    else none
+  | _ => none
+
+def handleAisle (toks : List String) : Option String :=
+  match aisleOps parse "" toks with
+  | some r => some r
+  | none =>
+  match aisleOps Orig.parse "_orig" toks with   -- the code before the repairs (development aid)
+  | some r => some r
+  | none =>
+  match toks with
   | ["ws_table"] => some (wsRanges isWhitespace)
   | ["ascii_ws_table"] => some (wsRanges isAsciiWhitespace)
   | _ => none
